@@ -1,5 +1,6 @@
 import ElaVerif.Model.PartialMerkle
 import ElaVerif.Lemmas.PartialMerkle
+import ElaVerif.Lemmas.PartialMerkleEnc
 /-!
 # C08 — SPV merkle proofs are sound and complete
 
@@ -9,12 +10,15 @@ position representation: `goOps` = Go's `uint32` position arithmetic, `treeOps` 
 pairs), `branchOf` = `GetTxMerkleBranch`.  The node hash `H` is a parameter; collision freedom is the
 explicit hypothesis `Injective2 H`.
 
-Claim: **partial**.  Proved for all inputs: completeness and soundness of the recursive pair, and
-that the stack machine *on tree positions* computes the recursive parser (`C08_loop_refines_partial`).
-Not proved: that Go's bit-twiddled position numbers (`goOps`: `pos|1`, `pos>>1|msb`, `(pos^msb)<<1`,
-`inDeadZone`) are an encoding of tree positions — the full statement is kept below as a comment and is
-checked on every run by differential execution (`check` ops: real Go loop vs `machine goOps`;
-`spec` ops: real Go loop vs `extractTop`).
+Proved for all inputs: completeness and soundness of the recursive pair; that the stack machine of
+`CheckMerkleBlock` computes the recursive parser — first on (height, index) positions by a forward
+simulation (`sim`), then for Go's bit-twiddled position numbers (`pos|1`, `pos>>1|msb`,
+`(pos^msb)<<1`, `inDeadZone`) by showing that they are the image of tree positions under
+`enc (h, i) = 2^(D+1) − 2^(D+1−h) + i` (`EncLaws`, `encLaws`).  Position arithmetic is on `Nat`;
+Go's `uint32` agrees for transaction counts up to 2^30 (assumption; `2·msb` must not wrap).
+What is *not* proved and is only tied by differential execution: the flag byte packing
+(`packFlags`/`unpackFlags`), and that `GetTxMerkleBranch`'s node table lookups (`branchOf`)
+produce the abstract branch of `C08_branch` (claim for that part: partial).
 -/
 namespace ElaVerif.C08
 open ElaVerif.Merkle ElaVerif.PMT
@@ -85,33 +89,43 @@ theorem C08_sound {H : α → α → α} (hinj : Injective2 H) (txs : List α) (
           exact List.take_sublist _ _
         · simp [hr, PRes.ids] at hok
 
-/-- **The loop computes the specification — partial.**  The stack machine of `CheckMerkleBlock`, run
-    on (height, index) positions, returns exactly what the recursive parser returns, for every
-    message (valid or not), with any fuel above some bound.
+/-- **The loop computes the specification.**  The stack machine of `CheckMerkleBlock` with Go's
+    position arithmetic returns exactly what the recursive parser returns, for every message
+    (valid or not) and every fuel above some bound. -/
+theorem C08_loop_refines (H : α → α → α) (n : Nat) (root : α) (bits : List Bool) (hashes : List α) :
+    ∃ k, ∀ f, (machine (goOps n) H n root bits hashes (k + f)).ids =
+      (extractTop H n root bits hashes).ids :=
+  go_machine_refines H n root bits hashes
 
-    Missing for the full statement (kept here, not proved):
-    `∀ n root bits hashes, ∃ k, ∀ f, (machine (goOps n) H n root bits hashes (k+f)).ids
-        = (extractTop H n root bits hashes).ids`   for `0 < n < 2^31`,
-    i.e. that `goOps n` is the image of `treeOps n` under
-    `enc (h, i) = 2·msb − 2^(depth−h+1) + i`.  That link is tested on every run (ops `check`, `spec`). -/
-theorem C08_loop_refines_partial (H : α → α → α) (n : Nat) (root : α) (bits : List Bool) (hashes : List α) :
+/-- the same on (height, index) positions (the control-structure half of the proof) -/
+theorem C08_loop_refines_tree (H : α → α → α) (n : Nat) (root : α) (bits : List Bool) (hashes : List α) :
     ∃ k, ∀ f, (machine (treeOps n) H n root bits hashes (k + f)).ids =
       (extractTop H n root bits hashes).ids :=
   machine_refines H n root bits hashes
 
-/-- Round trip through the stack machine (tree positions): what the node builds, the light client's
-    loop turns back into exactly the matched transactions. -/
-theorem C08_roundtrip_partial {H : α → α → α} (hinj : Injective2 H) (txs : List α) (matched : List Bool)
+/-- **Round trip through the real loop.**  What the node builds, `CheckMerkleBlock`'s loop turns back
+    into exactly the matched transactions, in block order. -/
+theorem C08_roundtrip {H : α → α → α} (hinj : Injective2 H) (txs : List α) (matched : List Bool)
     (hnd : txs.Nodup) (hne : txs ≠ []) (pad : List Bool) :
     ∃ root hs k, calcHash H txs (treeHeight txs.length) 0 = some root ∧
       (build H txs matched (treeHeight txs.length) 0).2 = hs.map some ∧
-      ∀ f, (machine (treeOps txs.length) H txs.length root
+      ∀ f, (machine (goOps txs.length) H txs.length root
               ((build H txs matched (treeHeight txs.length) 0).1 ++ pad) hs (k + f)).ids =
             .ok (matchedList txs matched) := by
   obtain ⟨root, hs, h1, h2, h3⟩ := C08_complete hinj txs matched hnd hne pad
-  obtain ⟨k, hk⟩ := machine_refines H txs.length root
+  obtain ⟨k, hk⟩ := go_machine_refines H txs.length root
     ((build H txs matched (treeHeight txs.length) 0).1 ++ pad) hs
   exact ⟨root, hs, k, h1, h2, fun f => (hk f).trans h3⟩
+
+/-- **Soundness of the real loop**: whatever message makes `CheckMerkleBlock`'s loop succeed against
+    the block's merkle root (honest count) yields only transactions of the block, in block order. -/
+theorem C08_loop_sound {H : α → α → α} (hinj : Injective2 H) (txs : List α) (root : α)
+    (hroot : calcHash H txs (treeHeight txs.length) 0 = some root)
+    (bits : List Bool) (hashes ids : List α) :
+    ∃ k, ∀ f, (machine (goOps txs.length) H txs.length root bits hashes (k + f)).ids = .ok ids →
+      ids.Sublist txs := by
+  obtain ⟨k, hk⟩ := go_machine_refines H txs.length root bits hashes
+  exact ⟨k, fun f hok => C08_sound hinj txs root hroot bits hashes ids ((hk f).symm.trans hok)⟩
 
 /-! ## non-vacuity and the role of the hypotheses -/
 
@@ -151,6 +165,48 @@ example : calcHash FT.node [.leaf 1, .leaf 1] 1 0 = some (.node (.leaf 1) (.leaf
     (build FT.node [.leaf 1, .leaf 1] [true, false] 1 0).2 = [some (.leaf 1), some (.leaf 1)] ∧
     (extractTop FT.node 2 (.node (.leaf 1) (.leaf 1)) (build FT.node [.leaf 1, .leaf 1] [true, false] 1 0).1
       [.leaf 1, .leaf 1]).ids = .err .dup := by
+  refine ⟨by decide, by decide, by decide⟩
+
+/-- **Merkle branch.**  For every transaction `i` of the block, the branch that `calcBranchRoute`
+    prescribes — at each level the sibling of the ancestor, or the ancestor itself in the dead zone,
+    with the `Index` bit set when the route node's number is even — evaluated by
+    `auxpow.GetMerkleRoot` recomputes the block's merkle root.  (Hashes are those of the full tree;
+    that `getNodes`' table returns exactly these for a matched transaction is tied by the
+    `branchrt` correspondence stream, not by a theorem.) -/
+theorem C08_branch (H : α → α → α) (zero : α) (txs : List α) (i : Nat) (hi : i < txs.length) :
+    ∃ sibs root, idealSibs H txs (treeDepth txs.length) 0 i = sibs.map some ∧
+      calcHash H txs (treeDepth txs.length) 0 = some root ∧
+      branchRoot H zero txs[i] sibs (idealIndex txs.length (treeDepth txs.length) 0 i) = root := by
+  have hx : calcHash H txs 0 i = some txs[i] := by simp [calcHash, List.getElem?_eq_getElem hi]
+  obtain ⟨sibs, y, h1, h2, h3⟩ := branch_fold_ideal H txs (treeDepth txs.length) 0 i txs[i]
+    (by rw [width_zero]; exact hi) hx
+  have hn2 : txs.length ≤ 2 ^ treeDepth txs.length := by
+    rw [← treeHeight_eq_depth]; exact treeHeight_spec _
+  have h0 : i / 2 ^ treeDepth txs.length = 0 := Nat.div_eq_of_lt (by omega)
+  rw [Nat.zero_add, h0] at h2
+  refine ⟨sibs, y, h1, h2, ?_⟩
+  unfold branchRoot
+  have : ¬ ((idealIndex txs.length (treeDepth txs.length) 0 i : Nat) : Int) = -1 := by omega
+  rw [if_neg this]
+  exact h3
+
+/-- `calcNodeIndex` is the position encoding and `calcBranchRoute` lists the encoded ideal route. -/
+theorem C08_route_encodes (n ti : Nat) :
+    route n ti (treeDepth n) 0 =
+      (List.range (treeDepth n)).map (fun t => encD (treeDepth n) (t, routeIdx n t (ti >>> t))) := by
+  rw [route_eq]
+  apply List.map_congr_left
+  intro t ht
+  simp only [Nat.zero_add]
+  exact nodeIndex_eq_enc n t _ (by have := List.mem_range.mp ht; omega)
+
+/-- non-vacuity: branch of transaction 5 of 5 (dead zone on two levels) in the free algebra. -/
+example : idealSibs FT.node exTxs 3 0 4 =
+    [some (.leaf 5), some (.node (.leaf 5) (.leaf 5)),
+     some (.node (.node (.leaf 1) (.leaf 2)) (.node (.leaf 3) (.leaf 4)))] ∧
+    idealIndex 5 3 0 4 = 7 ∧
+    branchRoot FT.node (.leaf 0) (.leaf 5)
+      [.leaf 5, .node (.leaf 5) (.leaf 5), .node (.node (.leaf 1) (.leaf 2)) (.node (.leaf 3) (.leaf 4))] 7 = exRoot := by
   refine ⟨by decide, by decide, by decide⟩
 
 /-- Soundness needs the *honest* transaction count: a peer that claims 2 transactions for a block of 4
